@@ -1225,13 +1225,24 @@ func main() {
 		runBatch(o, fmt.Sprintf("group/n=%02d/over-max", n), b)
 	}
 
-	// C. unrestricted stream: inputs and alterations that meet the recorded findings
+	// C. inputs taken from an earlier group (GroupCount / Header / Next still set; the last
+	// input carries a stale Next: former finding 1, fixed in chain33 db466e1) - guarded like B:
+	// the created group must pass, and RebuiltGroup must drop a Next put on the last member
 	for i := 0; i < 3*rounds; i++ {
 		n := 2 + i%3
-		b := g.batch(n, "main", 100000, true) // stale Next on the last input
-		b.Entries = []entryJ{{Kind: "same@env0", Env: 0}}
-		runBatch(o, "finding/stale-next", b)
+		b := g.batch(n, "main", 100000, true)
+		G := created(b)
+		if G == nil {
+			panic("stale batch not created")
+		}
+		m := pclone(G[n-1])
+		m.Next = digest(G[0])
+		b.Entries = []entryJ{{Kind: "same@env0", Env: 0}, {Kind: "same@env1", Env: 1},
+			{Kind: "field/Next:stale-last", Env: 0, Ops: []opJ{fieldOp(n-1, m)}},
+			{Kind: "field/Next:stale-last+rebuild", Env: 0, Ops: []opJ{fieldOp(n-1, m), {Op: "rebuild"}}}}
+		runBatch(o, "regress/stale-next", b)
 	}
+	// D. unrestricted stream: alterations that meet the recorded findings
 	for i := 0; i < 3*rounds; i++ {
 		n := 2 + i%3
 		b := g.batch(n, "main", 100000, false)
